@@ -1,5 +1,7 @@
 """Static description of the checks: which harness files are compiled into which package of /repo,
-which test functions decide which property, and the budgets per tier."""
+which test functions decide which property, and the budgets per tier. One file per property in
+lib/checks.d/<ID>.py, each defining CHECK (a dict) using the helpers below."""
+import glob, os
 
 MAIN = "github.com/openbao/openbao/v2/"
 SDK = "github.com/openbao/openbao/sdk/v2/"
@@ -18,36 +20,23 @@ PACKAGES = {
     "pki": {"dir": "internal/builtin/logical/pki", "import": MAIN + "internal/builtin/logical/pki"},
     "keysutil": {"dir": "sdk/helper/keysutil", "import": SDK + "helper/keysutil"},
     "transit": {"dir": "internal/builtin/logical/transit", "import": MAIN + "internal/builtin/logical/transit"},
+    "http": {"dir": "internal/http", "import": MAIN + "internal/http"},
 }
 
 
 def unit(name, pkg, files, run, quick, thorough=None, **kw):
+    """name: unit name; pkg: key of PACKAGES; files: harness files relative to /verif/harness;
+    run: -test.run regexp; quick/thorough: dict(checks=<rapid checks>, shards=<processes>, cap=<seconds>,
+    optional steps=<rapid.steps>, gomaxprocs=N). Extra keywords: fuzz=[dict(name='FuzzX', seconds=N)] (thorough
+    tier only), flaky_is_violation=True, no_ulimit=True (bolt/raft map 100 GB), env={...}, thorough_only=True,
+    floors={recorder_unit: {class: min_fraction}}."""
     d = {"name": name, "pkg": pkg, "files": files, "run": run, "quick": quick, "thorough": thorough or quick}
     d.update(kw)
     return d
 
 
-CHECKS = {
-    "C20": {
-        "level": "exploration",
-        "assumptions": ["crypto/rand is uniform (only spread, not uniformity, is tested)",
-                        "the reference GF(2^8) (carry-less product mod 0x11b) and reference Lagrange interpolation in the harness are correct"],
-        "units": [
-            unit("shamir", "shamir", ["shamir/c20_test.go"], "^TestVerif_C20_",
-                 quick={"checks": 4000, "shards": 1, "cap": 600},
-                 thorough={"checks": 40000, "shards": 8, "cap": 2400},
-                 # Split draws from crypto/rand, so a failing case need not fail again when rapid re-runs it;
-                 # every oracle is a deterministic fact about the shares actually returned, so it still counts.
-                 flaky_is_violation=True),
-        ],
-    },
-    "C19": {
-        "level": "exploration",
-        "assumptions": ["goroutines the request handler spawns itself and the expiration workers are not gated (they run freely, as in production)"],
-        "units": [
-            unit("uselimit", "vault", ["vault/c19_test.go"], "^TestVerif_C19_",
-                 quick={"checks": 250, "shards": 1, "cap": 900},
-                 thorough={"checks": 1500, "shards": 16, "cap": 3000}),
-        ],
-    },
-}
+CHECKS = {}
+for _f in sorted(glob.glob(os.path.join(os.path.dirname(os.path.abspath(__file__)), "checks.d", "C*.py"))):
+    _g = {"unit": unit, "MAIN": MAIN, "SDK": SDK}
+    exec(compile(open(_f).read(), _f, "exec"), _g)
+    CHECKS[os.path.basename(_f)[:-3]] = _g["CHECK"]
